@@ -11,6 +11,7 @@
 -/
 import PegtlVerif.Lemmas.Hooks
 import PegtlVerif.Lemmas.HookCount
+import PegtlVerif.Lemmas.RaiseSource
 
 namespace Pegtl.C08
 
@@ -95,5 +96,25 @@ example : ∃ r, parseTop { g := exG, inp := #[97, 97], unwind := true } 9 0 .ac
 
 example : ∃ r, parseTop { g := exG, inp := #[97, 97], unwind := false } 9 0 .action .required = some r ∧
     r.res = .ok ∧ runHooks false [] r.raw = some [] := by decide +kernel
+
+/-- **`raise` only from a must-context or a `raise` rule.**  In every trace, at every `raise` event for rule `j` the
+    innermost open invocation is of a `must< j >` or `raise< j >` rule (the hidden `internal::must< j >` node of
+    `must`, `if_must`, `opt_must`, `star_must`, `list_must`, …) — or the event is the self-blame of a `limit_depth` /
+    `limit_bytes` action class.  No other rule body ever calls `Control< … >::raise`. -/
+theorem C08_raise_source (cx : Ctx) (n i : Nat) (a : AMode) (m : RMode) (env : Env) (st : St) (r : Ret)
+    (h : run cx n i a m env st = some r) : RL cx r.raw :=
+  run_raise cx n i a m env st r h
+
+/-- `n0 = seq< n1 >`, `n1 = must< n2 >`, `n2 = one< 'a' >`: on "b" the raise for `n2` happens inside `n1` — accepted;
+    the same event directly inside the `seq` is rejected by the automaton. -/
+def rsG : Grammar := #[⟨true, {}, .seq [1, 1]⟩, ⟨false, {}, .must 2⟩, ⟨true, {}, .atom (.one true [97])⟩]
+
+example : (parseTop { g := rsG, inp := #[98] } 6 0 .action .required).map
+    (fun r => (r.raw.filter (fun e => !e.raiseNeutral), runRaise { g := rsG, inp := #[98] } [] r.raw)) =
+    some ([.enter 0 .action .required ⟨0, 1, 1⟩, .enter 1 .action .optional ⟨0, 1, 1⟩, .enter 2 .action .optional ⟨0, 1, 1⟩,
+           .exit 2 0 ⟨0, 1, 1⟩, .raise 2 ⟨0, 1, 1⟩, .exit 1 2 ⟨0, 1, 1⟩, .exit 0 2 ⟨0, 1, 1⟩], some []) := by decide +kernel
+
+example : runRaise { g := rsG, inp := #[98] } []
+    [.enter 0 .action .required ⟨0, 1, 1⟩, .raise 2 ⟨0, 1, 1⟩] = none := by decide
 
 end Pegtl.C08
